@@ -21,6 +21,27 @@ fn main() {
         eprintln!("usage: waxverif <ID> [--tier quick|thorough] [--seed N] [--replay FILE]");
         std::process::exit(2);
     }
+    if args[0] == "query" {
+        use wax::Program;
+        for e in &args[1..] {
+            match wax::Glob::new(e) {
+                Ok(g) => println!(
+                    "{:<28} exh={:?} root={:?} depth={:?} text={:?} rx={}",
+                    e, g.is_exhaustive(), g.has_root(), g.depth(), g.text(), g.verif_program_pattern()
+                ),
+                Err(err) => println!("{:<28} ERR {}", e, err),
+            }
+        }
+        return;
+    }
+    if args[0] == "match" {
+        use wax::Program;
+        let g = wax::Glob::new(&args[1]).unwrap();
+        for p in &args[2..] {
+            println!("{:?} -> {}", p, g.is_match(p.as_str()));
+        }
+        return;
+    }
     let id = args[0].to_uppercase();
     let mut tier = match std::env::var("VERIF_TIER").ok().as_deref() {
         Some("thorough") => Tier::Thorough,
